@@ -519,7 +519,14 @@ def run_minsep(block, ctx):
 
 TABLE_A = ([0.0, 1.0, 3.0, 4.0], [-1.0, -2.0, 2.0, 7.0])
 TABLE_B = ([0.0, 1.0, 3.0, 4.0], [5.0, 1.0, -3.0, -4.0])
-MUTATORS = ["set_B", "set_tol", "set_A_rev", "set_copy_of_other"]
+MUTATORS = ["set_B", "set_tol", "set_A_rev", "set_copy_of_other", "caller_scribbles"]
+_LENT = []      # every list the harness has handed to the library in the current history
+
+
+def lend(seq):
+    lst = list(seq)
+    _LENT.append(lst)
+    return lst
 
 
 def observe(it):
@@ -540,18 +547,25 @@ def observe(it):
 
 
 def mutate(it, m, other):
-    if m == "set_B":
-        it.set(list(TABLE_B[0]), list(TABLE_B[1]))
+    if m == "caller_scribbles":
+        # the caller re-uses its own buffers: every list it ever passed in is overwritten in place
+        for lst in _LENT:
+            for k in range(len(lst)):
+                lst[k] = -3.0 * lst[k] + 0.25 * k
+            lst.append(99.0)
+    elif m == "set_B":
+        it.set(lend(TABLE_B[0]), lend(TABLE_B[1]))
     elif m == "set_tol":
         it.set_tolerance(1e-3)
     elif m == "set_A_rev":
-        it.set(list(reversed(TABLE_A[0])), [y + 1.0 for y in reversed(TABLE_A[1])])
+        it.set(lend(reversed(TABLE_A[0])), lend([y + 1.0 for y in reversed(TABLE_A[1])]))
     elif m == "set_copy_of_other":
         it.set(other)
 
 
 def check_history(case):
-    src = Interpolation(list(TABLE_A[0]), list(TABLE_A[1]))
+    del _LENT[:]
+    src = Interpolation(lend(TABLE_A[0]), lend(TABLE_A[1]))
     cp = Interpolation(src)
     objs = {"src": src, "copy": cp}
     out = []
@@ -560,6 +574,7 @@ def check_history(case):
     for (who, m) in case["history"]:
         other = "copy" if who == "src" else "src"
         before = observe(objs[other])
+        mine = observe(objs[who])
         try:
             mutate(objs[who], m, objs[other])
         except Exception as ex:
@@ -569,6 +584,9 @@ def check_history(case):
         if before != after:
             out.append("%s.%s changed what the %s returns: %r -> %r"
                        % (who, m, other, before, after))
+        if m == "caller_scribbles" and observe(objs[who]) != mine:
+            out.append("overwriting the lists the tables were built from changed what the %s returns: %r -> %r"
+                       % (who, mine, observe(objs[who])))
     return out
 
 
@@ -576,6 +594,8 @@ def history_cases():
     evs = [(w, m) for w in ("src", "copy") for m in MUTATORS]
     out = [{"history": [list(e)]} for e in evs]
     out += [{"history": [list(a), list(b)]} for a in evs for b in evs]
+    out += [{"history": [list(a), list(b), list(c)]} for a in evs for b in evs for c in evs
+            if "caller_scribbles" in (a[1], b[1], c[1])]
     return out
 
 
@@ -610,5 +630,5 @@ def clauses(tier):
                lambda c: [m for _, m, _ in check_helper(c)], floor=100),
         Clause("minimum_separation", [minsep_cases()], run_minsep,
                lambda c: [m for _, m, _ in check_minsep(c)], floor=20),
-        Clause("copy_history", [history_cases()], run_history, check_history, floor=20, shape="H"),
+        Clause("copy_history", chunks(history_cases(), 8), run_history, check_history, floor=20, shape="H"),
     ]
